@@ -40,7 +40,9 @@ def handlers : List (String × Handler) := [
   ("kalt.deletion", KAltD.deletion),
   ("kalt.partition", KAltD.partition),
   ("kalt.sets", KAltD.sets),
-  ("euc.lp", Euclid2.lp)
+  ("euc.lp", Euclid2.lp),
+  ("kalt.bf", KAltD.bruteForce),
+  ("kalt.spc", KAltD.spc)
 ]
 
 def dispatch (j : Json) : Json :=
